@@ -177,9 +177,10 @@ def m_laws(c, tier):
         c.add_model(run_model("%s-%s" % (c.prop, name), "MC_LikelyLaws", consts, LAWS_INV, workers=14, replay=False, timeout=7200))
 
 
-def m_proofs(c):
-    """C07/C08 laws proved with TLAPS for every table (unbounded), see spec/LikelyProofs.tla"""
-    res = engine.run_proofs("%s-tlaps" % c.prop)
+def m_proofs(c, module="LikelyProofs"):
+    """laws proved with TLAPS on the specification, unbounded (spec/LikelyProofs.tla: C07/C08 for every table;
+    spec/MatchesProofs.tla: C11 for all values)"""
+    res = engine.run_proofs("%s-tlaps" % c.prop, module=module)
     c.add_model(res)
     c.extra_cov["tlaps_obligations_proved"] = res["tlaps"]["obligations_proved"]
 
@@ -389,10 +390,11 @@ def C10(tier, seed):
 def C11(tier, seed):
     c = Check("C11", tier, seed)
     binp = build_harness(ALL)
+    m_proofs(c, "MatchesProofs")
     m_matches(c, binp, tier, "match")
     traces(c, binp, "match", tier, quick_n=3000)
     traces(c, binp, "hist", tier, quick_n=2000)
-    return c.finish(rule="108 identifiers squared x 9 extension settings x 4 flag pairs through Locale::matches, LanguageIdentifier::matches (also against a Locale via AsRef) and Language::matches; the definition and its laws are invariants of the model",
+    return c.finish(rule="108 identifiers squared x 9 extension settings x 4 flag pairs through Locale::matches, LanguageIdentifier::matches (also against a Locale via AsRef) and Language::matches; the definition and its laws are invariants of the model and are PROVED with TLAPS for all values (MatchesProofs.tla)",
                     assumptions=ASSUME_COMMON, exhaustive=True)
 
 
